@@ -48,6 +48,43 @@ theorem checkJump_accept_within (x xNew : Vec) (lims : List Lim) (t dt : Rat) (c
   rw [heq]
   exact ⟨(failedJump_false_iff _ _).mp hf, rfl, rfl⟩
 
+/-- **every tau-leap proposal goes through `_checkJump`, the drift included.**  Whenever `tauLeap` gets as far as proposing
+a state (some rate is positive, the safety loop returns a step size, the Poisson counts are there), what it returns is
+`_checkJump` applied to `x + V·n + pure(x,t)·tau` - for EVERY vector of counts `n`, in particular when every event fires
+zero times and the explicit ODE terms alone move the state.  There is no exit that reports success without the test. -/
+theorem tau_proposal_always_checked (s : Settings) (e : Eval) (x : Vec) (t tau : Rat) (pois : List Nat)
+    (hz : allZero e.rates = false) (htau : tauOf s e x = some tau) (hlen : e.rates.length ≤ pois.length) :
+    tauLeap s e x t pois =
+      .checked (checkJump x (vadd (applyCounts x e.cols (pois.take e.rates.length)) (vscale e.pure tau)) s.lims t tau
+        (pois.take e.rates.length)) := by
+  unfold tauLeap
+  simp only [hz, htau, Bool.false_eq_true, if_false]
+  rw [if_neg (by omega)]
+
+/-- … hence a leap is taken exactly when the proposed state (jumps AND drift) is within the limits; otherwise state and
+time are the old ones (`checkJump_reject_unchanged`) -/
+theorem tau_leap_success_iff (s : Settings) (e : Eval) (x : Vec) (t tau : Rat) (pois : List Nat)
+    (hz : allZero e.rates = false) (htau : tauOf s e x = some tau) (hlen : e.rates.length ≤ pois.length) :
+    ∃ r, tauLeap s e x t pois = .checked r ∧
+      (r.success = true ↔ Within s.lims (vadd (applyCounts x e.cols (pois.take e.rates.length)) (vscale e.pure tau))) ∧
+      (r.success = false → r.x = x ∧ r.t = t) := by
+  refine ⟨_, tau_proposal_always_checked s e x t tau pois hz htau hlen, ?_, ?_⟩
+  · have h := checkJump_reject_iff x (vadd (applyCounts x e.cols (pois.take e.rates.length)) (vscale e.pure tau)) s.lims t tau
+      (pois.take e.rates.length)
+    constructor
+    · intro hs
+      by_contra hw
+      rw [h.mpr hw] at hs
+      cases hs
+    · intro hw
+      cases hsucc : (checkJump x (vadd (applyCounts x e.cols (pois.take e.rates.length)) (vscale e.pure tau)) s.lims t tau
+          (pois.take e.rates.length)).success
+      · exact absurd hw (h.mp hsucc)
+      · rfl
+  · intro hf
+    have := checkJump_reject_unchanged x _ s.lims t tau _ hf
+    exact ⟨this.1, this.2.1⟩
+
 /-- the four cases of the limit test, spelled out: `(None, None)` is skipped, lower-only, upper-only, two-sided -/
 theorem okLim_cases (v : Rat) (lo hi : Int) :
     okLim (none, none) v ∧ (okLim (some lo, none) v ↔ (lo : Rat) ≤ v) ∧
@@ -191,5 +228,30 @@ example :
     Within c.set.lims [3] := by
   refine ⟨by decide +kernel, ?_, ?_⟩ <;>
   · rw [← failedJump_false_iff]; decide +kernel
+
+/-- one slow birth event into `S` (rate 1/5) next to the explicit ODE term `dW/dt = -3` -/
+def driftEval : Eval := { rates := [1/5], cols := [[1, 0]], pure := [0, -3], mu := [], sigma2 := [] }
+/-- the same with `dW/dt = +3` -/
+def driftEvalUp : Eval := { rates := [1/5], cols := [[1, 0]], pure := [0, 3], mu := [], sigma2 := [] }
+/-- `S` declared by name, `W` with limits `(0, 40)`; fixed `tau = 1` -/
+def driftSet : Settings :=
+  { lims := stateLims [1, 1] [none, some (some 0, some 40)], react := [[0, 0]], eps := 3/100, preTau := some 1 }
+/-- (success, state, time, counts) of a step that went through `_checkJump` -/
+def view : Outcome → Option (Bool × Vec × Rat × List Nat)
+  | .checked r => some (r.success, r.x, r.t, r.counts)
+  | _ => none
+
+/-- **a zero-event leap rejected because of the drift alone.**  States `(S, W)`, `W` declared with limits `(0, 40)`, one slow
+birth event into `S` (rate 1/5), explicit ODE term `dW/dt = -3`, fixed `tau = 1`.  At `W = 2` the Poisson count is 0 and the
+proposal is `W = 2 - 3·1 = -1`: `tauLeap` reports failure with the OLD state and time, `_jump` falls back to one first-reaction
+step (the birth; no drift) and records `(1, 2)`.  Away from the bound (`W = 10`) the same zero-event leap is taken and the
+drift is applied (`W = 7`).  Upper bound: `dW/dt = +3` at `W = 39`. -/
+theorem drift_only_leap_rejected :
+    view (tauLeap driftSet driftEval [0, 2] 0 [0]) = some (false, [0, 2], 0, [0])
+    ∧ view (tauLeap driftSet driftEval [0, 10] 0 [0]) = some (true, [0, 7], 1, [0])
+    ∧ view (tauLeap driftSet driftEvalUp [0, 39] 0 [0]) = some (false, [0, 39], 0, [0])
+    ∧ (run { ev := fun _ _ => driftEval, set := driftSet, finalT := 5 } false [0, 2] 0 [⟨[0], [1/2]⟩]).map
+        (fun r => (r.x, r.t, r.branch)) = [([1, 2], 1/2, .retry)] := by
+  refine ⟨?_, ?_, ?_, ?_⟩ <;> decide +kernel
 
 end Pygom.C11
